@@ -426,3 +426,46 @@ def check_symmetry(ctx, rep, f, rule='R-SYM'):
         rep.violates(rule, f, 'def ' + f.name,
                      'the relation between the states of {} and {} is checked in one direction only: uses of the first operand without a mirror image: {}; of the second: {} -- a bijection needs the map and its inverse (functional and injective)'.format(
                          p1, p2, sorted(set(only1)), sorted(set(only2))))
+
+
+def check_minimiser_siblings(ctx, rep, fs, rule='R-SIBLING'):
+    """the minimisers agree on whether unreachable states are removed first (the checker compares state counts across them)"""
+    sig = {}
+    for f in fs:
+        calls = set()
+        for c in ctx.prog.calls_in(f):
+            nm = ctx.callee_name(f, c)
+            if nm in ('dfa_remove_unreachable_states', 'dfa_reachable_states'):
+                calls.add(nm)
+        sig[f.name] = calls
+    vals = list(sig.values())
+    if all(v == vals[0] for v in vals):
+        rep.holds(rule, fs[0], 'unreachable-state handling', 'all minimisers treat unreachable states alike ({})'.format(sorted(vals[0]) or 'kept'))
+    else:
+        rep.violates(rule, fs[0], 'unreachable-state handling', 'the minimisers disagree on the removal of unreachable states: {} -- their results have different numbers of states for a DFA with a distinguishable unreachable state, and check_dfa_minimal compares the answer of one with the state count of another'.format({k: sorted(v) for k, v in sig.items()}))
+
+
+def check_consistency_disjunction(ctx, rep, f, rule='R-SYM.or'):
+    """a `return False` that tests the consistency of a pair against both the map and its inverse must fire when either
+    direction conflicts (a disjunction)"""
+    n = 0
+    for st in walk_no_nested(f.node):
+        if not (isinstance(st, ast.If) and any(isinstance(b, ast.Return) and isinstance(b.value, ast.Constant) and b.value.value is False for b in st.body)):
+            continue
+        t = st.test
+        if not isinstance(t, ast.BoolOp):
+            continue
+        maps = set()
+        for c in ast.walk(t):
+            if isinstance(c, ast.Call) and isinstance(c.func, ast.Attribute) and c.func.attr == 'get':
+                maps.add(u(c.func.value))
+            if isinstance(c, ast.Subscript):
+                maps.add(u(c.value))
+        if len(maps) < 2:
+            continue
+        n += 1
+        if isinstance(t.op, ast.Or):
+            rep.holds(rule, f, st, 'the pair is rejected when it conflicts with either of {}'.format(sorted(maps)))
+        else:
+            rep.violates(rule, f, st, 'the pair is rejected only when it conflicts with both {} at once: a conflict in one direction is accepted and overwrites the recorded match (not a bijection)'.format(sorted(maps)))
+    return n
